@@ -25,7 +25,7 @@ def _ensure_repo_on_path():
 def resolve_target(target):
     """'src/a/b.py::Class.method' -> (callable or (cls, funcname))."""
     _ensure_repo_on_path()
-    rel, qual = target.split("::")
+    rel, qual = target.split("~")[0].split("::")  # (a view tag 'qualname~tag' names the same function)
     modname = rel[:-3].replace("/", ".")
     mod = importlib.import_module(modname)
     obj = mod
